@@ -21,7 +21,11 @@ def run(ctx):
         'column the exterior ring connection writes for that direction',
         'R3 gap conduction distances are a function of the link, not of the '
         'numbering: both directions of an edge-corner link take the side '
-        'parameters of the edge cell of that link (rule shared with C02.R6)']
+        'parameters of the edge cell of that link (rule shared with C02.R6)',
+        'R4 the contact width of the gap cell that closes an assembly\'s '
+        'perimeter (side 5 onto side 0) is the rest of the hexagon perimeter, '
+        'not a function of one of the two sides: no absolute side index is '
+        'singled out (rule shared with C09.R5)']
     ctx.not_decided += ['equivariance of the computed fields (a relation '
                         'between runs)', 'correctness of the run-time maps']
     r1(ctx)
@@ -29,6 +33,9 @@ def run(ctx):
     from . import _gapdist
     _gapdist.check(ctx, 'C07.R3')
     ctx.min_instances('C07.R3', 4)
+    from . import c09
+    c09.r5(ctx.alias({'C09.R5': 'C07.R4'}))
+    ctx.min_instances('C07.R4', 6)
     ctx.min_instances('C07.R1', 14)
     ctx.min_instances('C07.R2', 3)
 
